@@ -87,6 +87,9 @@ func observeRun(vm *ds.Context, input string, faces []int64, force bool, keepFac
 	}
 	o.Matched, o.Rest = vm.Matched, vm.RestInput
 	o.Ret = canon(project(vm.Ret, 0))
+	if strings.Contains(o.Ret, `"LB","SQ"`) { // a string that renders a dict: map order is unspecified
+		o.Ret = canonDetail("{'" + o.Ret)
+	}
 	o.Vars = varsOf(vm)
 	func() {
 		defer func() {
@@ -107,9 +110,8 @@ func canonDetail(s string) string {
 	if !strings.Contains(s, "{'") {
 		return s
 	}
-	rs := []rune(s)
-	sort.Slice(rs, func(i, j int) bool { return rs[i] < rs[j] })
-	return "UNORDERED:" + string(rs)
+	// even whether the text is elided ("equals the result") depends on two independent map iterations
+	return "UNORDERED"
 }
 
 var c03Breakers = []string{"{'a':1", "{'a':", "{'a'", "g9(1,", "g9(", "[1,2", "[1..", "[", "x[", "x[1:", "`a{", "`a{x", "`a{% if 1 {", "if 1 {", "if 1 { 2 } else {",
